@@ -527,6 +527,14 @@ def _assert_invariant(contract: Contract, instance: Any) -> None:
     else:
         check = contract.condition()
 
+    if inspect.iscoroutine(check):
+        raise ValueError(
+            "Unexpected coroutine resulting from the invariant condition {}. "
+            "Invariants can not be async since they are also checked around sync methods.".format(
+                contract.condition
+            )
+        )
+
     if not_check(check=check, contract=contract):
         raise _create_violation_error(
             contract=contract, resolved_kwargs={"self": instance}
